@@ -457,23 +457,26 @@ _HW_WSDL = """<?xml version="1.0" encoding="UTF-8"?>
 def _hw_blocks(style):
     """Three namespaces chained a -> b -> c: a's Op refers to b's global element `item` (anonymous type with
     unqualified locals) and to b's `x`, whose named type lives in c.  style: how each block names its own namespace -
-    'prefixed' (xmlns:a=...), 'default' (xmlns=... only)."""
+    'prefixed' (xmlns:a=...), 'default' (xmlns=... only), 'none' (not at all)."""
     XS = "http://www.w3.org/2001/XMLSchema"
 
     def own(p, uri):
+        if style == "none":
+            # the block binds nothing to its own namespace: a reference to an element of its own binds a prefix on the spot
+            return ("", 'me:own" xmlns:me="%s' % uri)
         return (' xmlns:%s="%s"' % (p, uri), p + ":") if style == "prefixed" else (' xmlns="%s"' % uri, "")
     da, qa = own("a", "urn:a")
     db, qb = own("b", "urn:b")
     dc, qc = own("c", "urn:c")
     A = ('<xs:schema targetNamespace="urn:a" xmlns:xs="%s"%s xmlns:pb="urn:b"><xs:import namespace="urn:b"/>'
          '<xs:element name="Op"><xs:complexType><xs:sequence><xs:element ref="pb:item"/><xs:element ref="pb:x"/>'
-         '<xs:element name="note" type="xs:string"/><xs:element ref="%sown"/>'
+         '<xs:element name="note" type="xs:string"/><xs:element ref="%s"/>'
          '<xs:element name="i1" type="q1:Info" xmlns:q1="urn:b" minOccurs="0"/>'
          '<xs:element name="i2" type="q1:Info" xmlns:q1="urn:c" minOccurs="0"/></xs:sequence></xs:complexType></xs:element>'
          '<xs:element name="own"><xs:complexType><xs:sequence><xs:element name="k" type="xs:string"/></xs:sequence>'
          '</xs:complexType></xs:element>'
          '<xs:element name="OpResponse"><xs:complexType><xs:sequence><xs:element ref="pb:item" minOccurs="0"/>'
-         '</xs:sequence></xs:complexType></xs:element></xs:schema>' % (XS, da, qa))
+         '</xs:sequence></xs:complexType></xs:element></xs:schema>' % (XS, da, qa if style == "none" else qa + "own"))
     B = ('<xs:schema targetNamespace="urn:b" xmlns:xs="%s"%s xmlns:pc="urn:c"><xs:import namespace="urn:c"/>'
          '<xs:element name="item"><xs:complexType><xs:sequence><xs:element name="code" type="xs:string"/>'
          '<xs:element name="qty" type="xs:int"/></xs:sequence></xs:complexType></xs:element>'
@@ -503,7 +506,7 @@ def handwritten_renderings(ctx):
     reply = ('<e:Envelope xmlns:e="%s"><e:Body><r:OpResponse xmlns:r="urn:a"><z:item xmlns:z="urn:b"><code>C</code>'
              '<qty>5</qty></z:item></r:OpResponse></e:Body></e:Envelope>' % xmlread.ENV11).encode()
     plain_ref = [None]
-    for style in ("prefixed", "default"):
+    for style in ("prefixed", "default", "none"):
         blocks = _hw_blocks(style)
         for order in itertools.permutations("ABC"):
             meta = {"stream": "handwritten-renderings", "own_namespace": style, "block_order": "".join(order)}
